@@ -24,7 +24,7 @@ RULE = ("hostile connections: one hostile item (a mutated message or garbage) se
 ASSUMPTIONS = ["a peer that stalls forever mid-message on the single-threaded multiplex server without a timeout is documented behaviour; hostile clients always close (after <=50 ms)",
                "'still accepts / keeps receiving' = within a 10 s watchdog after the last hostile socket is closed",
                "BaseException-only exceptions (SystemExit ...) raised by methods are outside the statement ('Exception subclasses')"]
-REQUIRED_REACH = ["refused_lingerers_ok", "oneway_calls_served_behind_a_pile", "slow_oneway_leavers_ok", "discovery_responder_ok", "served_while_handshakes_stalled", "abandoned_streams_swept", "injected_yields", "hostile_connections", "witness_calls_ok", "post_attack_handshake_ok", "accounting_restored", "refused_by_full_pool", "error_replies_seen", "stream_guess_phases_ok"]
+REQUIRED_REACH = ["served_during_pipeline_flood", "refused_lingerers_ok", "oneway_calls_served_behind_a_pile", "slow_oneway_leavers_ok", "discovery_responder_ok", "served_while_handshakes_stalled", "abandoned_streams_swept", "injected_yields", "hostile_connections", "witness_calls_ok", "post_attack_handshake_ok", "accounting_restored", "refused_by_full_pool", "error_replies_seen", "stream_guess_phases_ok"]
 SHARD_TIMEOUT = {"quick": 240, "thorough": 3000}
 
 
@@ -627,6 +627,81 @@ def slow_oneway_phase(fx, P, rec, cfgkey, pay):
             NAPS.pop(k, None)
 
 
+def pipeline_flood_phase(fx, P, rec, cfgkey, pay):
+    """a client that pipelines: it keeps several complete, well-framed, cheap requests queued on its connection at all times (it reads the
+    replies, so nothing ever blocks on it) and does not stop until a well-behaved client that was connected all along has been served.
+    Decided by order, not by a clock: on a daemon that treats its connections fairly the witness is served while the flood goes on; the
+    60 s watchdog only ends a run in which it never is."""
+    ser = P.serializers.serializers["marshal"]
+    rec.case(("pipeline-flood", cfgkey), nontrivial=True)
+    wp = fx.proxy("svc", serializer="marshal", timeout=60.0)
+    hc = None
+    stop = threading.Event()
+    sent = [0]
+    try:
+        wp._pyroBind()
+        hc = wire.RawClient(fx.location, timeout=20.0)
+        if hc.handshake("svc", ser).type != wire.CONNECTOK:
+            rec.count("pipeline_flood_refused")
+            return True
+        batch = b"".join(wire.encode(wire.PING, 0, (i % 60000) + 1, ser.serializer_id, b"ping") for i in range(50)) + \
+            b"".join(wire.encode(wire.INVOKE, 0, 7, ser.serializer_id, ser.dumpsCall("svc", "echo", ("p",), {})) for _ in range(50))
+
+        def flood():
+            # (sender: the connection's backlog at the server is never empty while this runs)
+            try:
+                while not stop.is_set():
+                    hc.send(batch)
+            except Exception:
+                pass
+
+        def drain():
+            # (reader: every answer is read, nothing ever blocks on this client)
+            try:
+                while True:
+                    hc.recv_msg()
+                    sent[0] += 1
+            except Exception:
+                pass
+        th = threading.Thread(target=flood, daemon=True)
+        th2 = threading.Thread(target=drain, daemon=True)
+        th.start()
+        th2.start()
+        end = time.monotonic() + 10
+        while sent[0] < 300 and time.monotonic() < end and th.is_alive():
+            time.sleep(0.005)
+        try:
+            ok = wp.echo("served-during-the-flood") == "served-during-the-flood"
+            err = None
+        except Exception as x:
+            ok, err = False, x
+        stop.set()
+        th.join(30)
+        try:
+            hc.close()
+        except Exception:
+            pass
+        th2.join(30)
+        if not ok:
+            rec.violation("witness-disturbed", "a client kept a hundred well-framed cheap requests queued on its connection (%d answered so far); a client connected all along was not served "
+                          "while that went on: %r (cfg %s)" % (sent[0], err, cfgkey), dict(pay, pipeline_flood=True))
+            return False
+        rec.count("served_during_pipeline_flood")
+        return True
+    finally:
+        stop.set()
+        for c in (hc,):
+            try:
+                if c is not None:
+                    c.close()
+            except Exception:
+                pass
+        try:
+            wp._pyroRelease()
+        except Exception:
+            pass
+
+
 def refused_lingerers_phase(fx, P, rec, cfgkey, pay):
     """clients whose connect attempt is REFUSED (garbage, another protocol version, an unknown object) and who then simply stay connected,
     reading nothing, closing nothing: the refusal ends the daemon's business with them - their slots are given back at once and everybody
@@ -851,6 +926,9 @@ def run_config(P, cfg, rec, r, n_items):
             if not stalled_phase(fx, P, rec, cfgkey, dict(pay, last=last)):
                 return
         stream_guess_phase(fx, P, rec, cfgkey, dict(pay, last=last))
+        if not cfg.get("ssl"):
+            if not pipeline_flood_phase(fx, P, rec, cfgkey, dict(pay, last=last)):
+                return
         # streams that hostile clients opened and abandoned: the housekeeping pass that drops them has run before the verdict is taken
         opened = sum(1 for ph, lb in sent_log if "stream_" in lb)
         if opened:
